@@ -151,6 +151,51 @@ def check_from_root(tree):
     return out
 
 
+def check_after_foreign_call(tree):
+    """The two-argument form a.clone_from_root(other) is not claimed by the property, but whatever it does it
+    must not poison later plain calls: after every such call, n.clone_from_root() is judged as usual."""
+    out = []
+    nodes = audit.all_nodes(tree)
+    for a in nodes[:4]:
+        for d in nodes[:4]:
+            if a is d:
+                continue
+            try:
+                a.clone_from_root(d)
+            except Exception:  # noqa
+                pass
+            res = check_from_root(tree)
+            if res:
+                k, det = res[0]
+                out.append((k + "|after-a-two-argument-call", det))
+                return out
+    return out
+
+
+def degenerate_sigs():
+    """one-operand nodes that have no operand yet, flag on either side (alone and under a binary node)"""
+    out = []
+    for u in UN:
+        for flag in (False, True):
+            leaf = (u, flag, None, None)
+            out.append(leaf)
+            out.append(("+", None, ("v", "x", None, None), leaf))
+            out.append(("*", None, leaf, ("c", ("i", "2"), None, None)))
+    return out
+
+
+def check_degenerate(s):
+    out = []
+    tree = SG.build(s)
+    try:
+        c = tree.clone()
+    except Exception as e:  # noqa
+        return [("clone-raises:" + type(e).__name__, SG.show(s))]
+    if SG.sig(c) != s:
+        out.append(("operand-side-flag-lost", f"{SG.show(s)}: the clone of a one-operand node without operand has another side flag"))
+    return out
+
+
 def dedupe(res):
     seen, out = set(), []
     for k, d in res:
@@ -163,6 +208,17 @@ def dedupe(res):
 def _work(task):
     kind = task[0]
     acc = Acc()
+    if kind == "extra":
+        for s in degenerate_sigs():
+            acc.count("trees")
+            for k, d in check_degenerate(s):
+                acc.violation(f"{k}|{RW.pat(s, 1)}|no-operand", {"sig": s, "mode": "degenerate"}, d)
+        for n in (2, 3):
+            for s in sigs(n, True):
+                acc.count("trees")
+                for k, d in check_after_foreign_call(SG.build(s)):
+                    acc.violation(f"{k}|{RW.pat(s, 1)}", {"sig": s, "mode": "foreign"}, d)
+        return acc
     if kind == "sigs":
         _, n, small, lo, hi = task
         all_s = sigs(n, small)
@@ -214,6 +270,7 @@ def run(tier, seed):
     for n in range(K + 1, K + 3):
         total = len(sigs(n, True))
         tasks += [("sigs", n, True, lo, hi) for lo, hi in par.chunks(total, 96 if total > 5000 else 1)]
+    tasks.append(("extra",))
     t1, _ = steps.start_texts("quick", "expr")
     t2, _ = steps.start_texts("quick", "eqn")
     texts = (t1 + t2)[:: (12 if tier == "quick" else 3)]
@@ -239,6 +296,10 @@ def replay(case):
         def tup(x):
             return tuple(tup(i) for i in x) if isinstance(x, list) else x
         s = tup(case["sig"])
+        if case.get("mode") == "degenerate":
+            return [(f"{k}|{RW.pat(s, 1)}|no-operand", d) for k, d in check_degenerate(s)]
+        if case.get("mode") == "foreign":
+            return [(f"{k}|{RW.pat(s, 1)}", d) for k, d in check_after_foreign_call(SG.build(s))]
         res = dedupe(check_tree(SG.build(s)) + check_from_root(SG.build(s)))
     else:
         t = RW.run_trace(case["text"], case["trace"])[-1]
